@@ -89,14 +89,19 @@ func (version Version) MarshalControl() (string, error) {
 
 func (v Version) StringWithoutEpoch() string {
 	result := v.Version
-	if len(v.Revision) > 0 {
+	// An upstream part containing a hyphen is only recoverable if a
+	// (possibly empty) revision follows it: the revision starts after the
+	// last hyphen.
+	if len(v.Revision) > 0 || strings.Contains(v.Version, "-") {
 		result += "-" + v.Revision
 	}
 	return result
 }
 
 func (v Version) String() string {
-	if v.Epoch > 0 {
+	// An upstream part containing a colon is only recoverable with an
+	// explicit epoch: the epoch ends at the first colon.
+	if v.Epoch > 0 || strings.Contains(v.Version, ":") {
 		return fmt.Sprintf("%d:%s", v.Epoch, v.StringWithoutEpoch())
 	}
 	return v.StringWithoutEpoch()
